@@ -16,7 +16,7 @@ class C15(Prop):
             "event observed; distinct = spec digests")
     reach = ["tls_legacy", "tls13", "tls13_switch_client", "tls13_switch_server", "quic_initial", "quic_tls", "quic_ku",
              "mac_keys", "cbc_iv_implicit", "aead_fixed_iv", "sha384_prf", "resumption_shares_master_secret",
-             "key_log_lines_of_connections_interleaved"]
+             "key_log_lines_of_connections_interleaved", "quic_version_negotiation_first"]
 
     def plan(self, tier):
         p = super().plan(tier)
@@ -33,7 +33,7 @@ class C15(Prop):
             c = gen.gen_tls_conn(R.fork("conn"), 0, cfg, used, pair=pairs[idx] if idx < len(pairs) else None)
         else:
             from .. import quicpeer
-            c = quicpeer.gen_quic_conn(R.fork("q"), 0, {"ku_pct": 60}, used)
+            c = quicpeer.gen_quic_conn(R.fork("q"), 0, {"ku_pct": 60, "vneg_pct": 15}, used)
         conns = [c]
         if c["proto"] == "tls" and c["ver"] != T.TLS13 and idx >= len(pairs) and R.chance(40):
             # a second connection resuming the first one: same master secret, new randoms -> different keys
@@ -78,6 +78,8 @@ class C15(Prop):
                 self.check_tls(out, conn, t, mine, switches_attributable=len(spec["conns"]) == 1)
             else:
                 from .. import quicpeer
+                if conn["q"].get("vneg_prelude"):
+                    out.count("reach:quic_version_negotiation_first")
                 quicpeer.check_keys(out, conn, t, pr)
         return out
 
